@@ -227,7 +227,7 @@ func c14(p *Pkg, _ *Pkg, payload json.RawMessage, res *Result) {
 				{"If-Modified-Since", "garbage"}, {"If-Unmodified-Since", "Mon, 02 Jan 2006 15:04:05 GMT"}, {"If-Range", `"x"`}, {"Range", "bytes=0-0"}, {"Range", "bytes=9-1"}, {"Range", "x"},
 				{"Accept", "*/*"}, {"Accept", "application/xml;q=0"}, {"Accept-Encoding", "gzip, br"}, {"Accept-Language", "de"}, {"Expect", "100-continue"}, {"Connection", "upgrade"},
 				{"Upgrade", "websocket"}, {"Origin", "https://o.example"}, {"Access-Control-Request-Method", "GET"}, {"Access-Control-Request-Headers", "x-a, x-b"},
-				{"Content-Type", "text/plain"}, {"Content-Type", ""}, {"Content-Type", "application/json; charset=latin1"}, {"Content-Length", "-1"}, {"Transfer-Encoding", "chunked"},
+				{"Content-Type", "text/plain"}, {"Content-Type", ""}, {"Content-Type", "application/json; charset=latin1"}, {"Content-Length", "-1"}, {"Content-Length", "0"}, {"Content-Length", "1"}, {"Content-Length", "9223372036854775807"}, {"Transfer-Encoding", "chunked"},
 				{"Cookie", "a=b; c"}, {"X-Forwarded-For", "1.2.3.4"}, {"X-HTTP-Method-Override", "DELETE"}, {"Host", ""}} {
 				for rep := 0; rep < 2; rep++ {
 					h := mkHdr(op)
